@@ -126,6 +126,7 @@ type Env07 struct {
 }
 
 type C07Plan struct {
+	ProbeConfig string `json:"probe_config,omitempty"` // the configuration without a fixed mtime (negative control)
 	Envs    []Env07  `json:"envs"`
 	Formats []string `json:"formats,omitempty"` // restrict (replay)
 }
